@@ -81,7 +81,7 @@ func H_C14_Concurrent() {
 		short, long = 40*time.Millisecond, 400*time.Millisecond
 	}
 	stopAfter := zzvrt.Choice("stop.after", 3) // 0 nobody stops, 1 the short armer stops afterwards, 2 the long armer does
-	order := 0                                  // ghost: which goroutine performed the last operation
+	order := 0                                 // ghost: which goroutine performed the last operation
 	done := 0
 	go func() {
 		c.setHandshakeTimer(timeoutTimerTypeWaitForReady, short)
